@@ -254,6 +254,20 @@ def evaluate_set(s, wd, cfg, rng, stats):
             viol.append(("nondeterministic_ir", "IR files %s differ between entropy %d and %d" % (diff, first[0], e),
                          {"entropies": [first[0], e]}))
             break
+    # D1 again with --verbose (token, AST and IR dumps go to stdout)
+    if stats["sets"] % cfg.get("verbose_every", 3) == 0 and len(seeds) >= 2:
+        vobs = []
+        for e in seeds[:2]:
+            clock, pid = sim_params()
+            r, arte = one_run(wd, order, e, clock, pid, base_opts + ["--verbose"], out_dir=False)
+            stats["runs"] += 1
+            stats["verbose_runs"] = stats.get("verbose_runs", 0) + 1
+            vobs.append((e, verdict_of(r), r))
+        if vobs[0][1] != vobs[1][1]:
+            a, b = vobs[0][2].out, vobs[1][2].out
+            k = next((i for i in range(min(len(a), len(b))) if a[i] != b[i]), min(len(a), len(b)))
+            viol.append(("nondeterministic_verbose_output", "--verbose output differs between entropy %d and %d at byte %d: %r vs %r" %
+                         (vobs[0][0], vobs[1][0], k, a[max(0, k - 60):k + 60], b[max(0, k - 60):k + 60]), {"entropies": [vobs[0][0], vobs[1][0]]}))
     base_r = first[3]
     base_heads = headers_of(base_r)
     stats["diag_lists"].add(tuple(base_heads))
